@@ -4,6 +4,7 @@ CONSTANTS
   MaxItems = 2
   MaxTargets = 2
   MaxOdd = 1
+  Stretching = FALSE
 INVARIANT EmitB
 INVARIANT RoundTrip
 CHECK_DEADLOCK FALSE
